@@ -274,6 +274,16 @@ func locOrder(c *Ctx, a *flAgg) {
 			reversed = true
 		}
 	}
+	// the list that is sorted holds the keys and nothing else: it starts empty
+	for _, b := range fn.Blocks {
+		for _, in := range b.Instrs {
+			if mk, ok := in.(*ssa.MakeSlice); ok {
+				if k, isC := bnConst(mk.Len); !isC || k != 0 {
+					other = "the key list does not start empty (make with a length): it holds empty strings besides the keys, and the empty root matches every path under its separator"
+				}
+			}
+		}
+	}
 	if sorted && reversed && other == "" {
 		a.ok("LOC-order", "sortedKeys", "roots are tried in descending lexical order: a root nested in another one is tried before its parent", fn.Pos())
 	} else {
